@@ -206,12 +206,16 @@ def run_failmag(spec, rec, dadi, Numerics, seed):
             coefs = [c0, c1]
             best = c0 + c1 * xmin
             exact = c0
+        if ci % 4 >= 2:
+            # a two-dimensional result: falling back is decided entry by entry, not row by row
+            coefs = [c.reshape(2, 4) for c in coefs]
+            best, exact, dec = best.reshape(2, 4), exact.reshape(2, 4), dec.reshape(2, 4)
         desc = {"k": k, "log": log, "fail_mag": fail_mag, "pts": pts_l, "dec": dec.tolist()}
         if not rec.case("fm-%d" % ci, desc):
             continue
         calls = []
         as_spec = ci % 2 == 1
-        ids_fm = ["only pop"] if as_spec else None
+        ids_fm = (["only pop"] if coefs[0].ndim == 1 else ["pop a", "pop b"]) if as_spec else None
         model = _make_model(dadi, xmap, coefs, log, as_spec, False, ids_fm, calls)
         x_l = [xmap[p] for p in pts_l]
         site = "make_extrap_func"
